@@ -32,6 +32,18 @@ pub struct Swarm {
     pub ticks: usize,
     /// Enumerate every tie-break of the piece chooser.
     pub tie_breaks: bool,
+    /// Simultaneous arrivals: an answer from one peer and the disconnect of another reach the client
+    /// before it runs (both feeding orders).
+    pub races: bool,
+    /// (k, j): scripted peer k is the same host as peer j restarted with a new peer id (same address).
+    pub same_addr: Vec<(usize, usize)>,
+    /// Peers listed by the first announce / by every later one (None: all peers).
+    pub tracker_first: Option<Vec<usize>>,
+    pub tracker_later: Option<Vec<usize>>,
+    /// The manager's broadcasts are held back per connection task until an `rl<i>` event.
+    pub gated: bool,
+    /// Evaluate only the storage invariants (used by C01, which borrows these scenarios).
+    pub storage_only: bool,
 }
 
 #[derive(Default, Clone, Debug)]
@@ -51,6 +63,7 @@ pub struct PState {
 #[derive(Default)]
 pub struct Mon {
     pub p: Vec<PState>,
+    pub had: Vec<bool>,
     pub ticks: usize,
     pub elapsed_ms: u64,
 }
@@ -151,6 +164,13 @@ impl Swarm {
         if sym == "tick" {
             return vec![FEv::Advance(10_000)];
         }
+        if sym.starts_with('x') {
+            let i: usize = sym[2..3].parse().unwrap();
+            let j: usize = sym[3..4].parse().unwrap();
+            let r = mon.p[i].outstanding[0];
+            let answer = FEv::Feed(i, refwire::encode(&Msg::Piece(r.0, r.1, self.piece_bytes(w, &r))));
+            return vec![FEv::Batch(if &sym[..2] == "xa" { vec![answer, FEv::Close(j)] } else { vec![FEv::Close(j), answer] })];
+        }
         let i: usize = sym[2..].parse().unwrap();
         let t = &w.t;
         let p = &mon.p[i];
@@ -169,6 +189,7 @@ impl Swarm {
             "in" => vec![FEv::Feed(i, refwire::encode(&Msg::Interested))],
             "ni" => vec![FEv::Feed(i, refwire::encode(&Msg::NotInterested))],
             "cl" => vec![FEv::Close(i)],
+            "rl" => vec![FEv::Release(i)],
             "ao" | "an" | "as" => {
                 let r = if &sym[..2] == "an" { *p.outstanding.last().unwrap() } else { p.outstanding[0] };
                 let bytes = refwire::encode(&Msg::Piece(r.0, r.1, self.piece_bytes(w, &r)));
@@ -187,6 +208,13 @@ impl Swarm {
         if sym == "tick" {
             mon.ticks += 1;
             mon.elapsed_ms += 10_000;
+            return;
+        }
+        if sym.starts_with('x') {
+            let i: usize = sym[2..3].parse().unwrap();
+            let j: usize = sym[3..4].parse().unwrap();
+            mon.p[i].outstanding.remove(0);
+            mon.p[j].closes += 1;
             return;
         }
         let i: usize = sym[2..].parse().unwrap();
@@ -286,9 +314,14 @@ impl Sys for Swarm {
     }
     fn build(&self, dir: &PathBuf) -> (FullWorld, Mon) {
         let t = self.torrent();
-        let cfgs: Vec<_> = (0..self.owners.len()).map(|i| peer_cfg(i, true)).collect();
+        let mut cfgs: Vec<_> = (0..self.owners.len()).map(|i| peer_cfg(i, true)).collect();
+        for (k, j) in &self.same_addr {
+            cfgs[*k].addr = cfgs[*j].addr.clone();
+        }
         let all: Vec<usize> = (0..cfgs.len()).collect();
-        let w = FullWorld::new(&t, &cfgs, vec![], TrackerOutcome::Good(all), dir);
+        let first = self.tracker_first.clone().unwrap_or_else(|| all.clone());
+        let later = self.tracker_later.clone().unwrap_or(all);
+        let w = FullWorld::new_gated(&t, &cfgs, vec![TrackerOutcome::Good(first)], TrackerOutcome::Good(later), dir, self.gated);
         let mut mon = Mon::default();
         self.sync(&w, &mut mon);
         (w, mon)
@@ -300,6 +333,26 @@ impl Sys for Swarm {
         let mut out = vec![];
         for i in 0..self.owners.len() {
             out.extend(self.peer_events(w, mon, i, false));
+        }
+        if self.gated {
+            for i in 0..self.owners.len() {
+                if self.live(w, i) && !w.pending(i).is_empty() {
+                    out.push(format!("rl{}", i));
+                }
+            }
+        }
+        if self.races {
+            for i in 0..self.owners.len() {
+                if !self.live(w, i) || mon.p[i].outstanding.is_empty() || !mon.p[i].unchoked {
+                    continue;
+                }
+                for j in 0..self.owners.len() {
+                    if j != i && self.live(w, j) && self.may_close[j] && mon.p[j].closes < 1 {
+                        out.push(format!("xa{}{}", i, j)); // answer of i arrives, then j's FIN
+                        out.push(format!("xc{}{}", i, j)); // j's FIN arrives, then the answer of i
+                    }
+                }
+            }
         }
         if mon.ticks < self.ticks {
             out.push("tick".to_string());
@@ -331,8 +384,28 @@ impl Sys for Swarm {
             self.note(mon, sym);
         }
         self.sync(w, mon);
-        if let Some(v) = self.health(w) {
-            return Some(v);
+        if !self.storage_only {
+            if let Some(v) = self.health(w) {
+                return Some(v);
+            }
+        }
+        if let Some(snap) = w.snap() {
+            for (i, st) in snap.statuses.iter().enumerate() {
+                let have = *st == Status::Have;
+                if have && !w.has_piece_file(i) {
+                    return Some(("piece-counted-as-done-without-stored-data", format!("piece {} is Have but no verified piece file exists; {}", i, w.session_key())));
+                }
+                if mon.had.len() <= i {
+                    mon.had.push(false);
+                }
+                if mon.had[i] && !have {
+                    return Some(("owned-piece-forgotten", format!("piece {} was owned and is now {:?}; {}", i, st, w.session_key())));
+                }
+                mon.had[i] = have;
+            }
+        }
+        if self.storage_only {
+            return None;
         }
         self.hanging(w, mon)
     }
@@ -340,7 +413,7 @@ impl Sys for Swarm {
         let mut k = w.session_key();
         for i in 0..self.owners.len() {
             let p = &mon.p[i];
-            k.push_str(&format!(" [{} live={} gen={} hs={} bf={} an={} un={} ck={} in={} out={:?} cl={}", i, self.live(w, i), p.generation.min(3), p.hs, p.bitfield, p.announced, p.unchoked, p.choke_used, p.interest, p.outstanding, p.closes));
+            k.push_str(&format!(" [{} pend={:?} live={} gen={} hs={} bf={} an={} un={} ck={} in={} out={:?} cl={}", i, if self.gated { w.pending(i) } else { vec![] }, self.live(w, i), p.generation.min(3), p.hs, p.bitfield, p.announced, p.unchoked, p.choke_used, p.interest, p.outstanding, p.closes));
             if self.live(w, i) {
                 if let Some(h) = w.handler(i) {
                     k.push_str(&format!(" h: ck={} in={} tx={:?} buf={} rx={:?}", h.choked, h.interested, h.piece_tx, h.msg_buff.len(), h.piece_rx.as_ref().map(|rx| (rx.piece_index, rx.requested.clone(), rx.left.clone(), rx.buff.iter().filter(|b| **b != 0).count()))));
@@ -363,6 +436,9 @@ impl Sys for Swarm {
         t
     }
     fn final_check(&self, w: &mut FullWorld, mon: &mut Mon, verbose: bool) -> Option<(&'static str, String)> {
+        if self.storage_only {
+            return None;
+        }
         // fair default continuation: every honest peer keeps doing the next thing its script asks
         // for; when nobody can do anything, time passes (up to a 900 s horizon)
         let mut waited = 0u64;
@@ -379,7 +455,13 @@ impl Sys for Swarm {
                 break;
             }
             let mut next: Option<String> = None;
+            if self.gated {
+                next = (0..self.owners.len()).find(|i| self.live(w, *i) && !w.pending(*i).is_empty()).map(|i| format!("rl{}", i));
+            }
             for i in 0..self.owners.len() {
+                if next.is_some() {
+                    break;
+                }
                 if let Some(e) = self.peer_events(w, mon, i, true).into_iter().next() {
                     next = Some(e);
                     break;
@@ -430,8 +512,22 @@ fn own(n: usize, idx: &[usize]) -> Vec<bool> {
     (0..n).map(|i| idx.contains(&i)).collect()
 }
 
+/// Full-session scenarios that C01 borrows (tracker-driven reconnects cannot be produced in the
+/// pumped world): only "Have implies stored, owned stays owned" is evaluated.
+pub fn storage_scenarios() -> Vec<(Swarm, usize)> {
+    scenarios(false)
+        .into_iter()
+        .filter(|(s, _)| s.label == "3pc-restarted-peer" || s.label == "3pc-two-seeders-gated")
+        .map(|(mut s, d)| {
+            s.storage_only = true;
+            s.label = if s.label == "3pc-restarted-peer" { "storage-3pc-restarted-peer" } else { "storage-3pc-two-seeders-gated" };
+            (s, d)
+        })
+        .collect()
+}
+
 pub fn scenarios(thorough: bool) -> Vec<(Swarm, usize)> {
-    let base = Swarm { label: "", piece_len: 5, files: vec![("f", 13)], single: true, owners: vec![], may_close: vec![], by_have: vec![], with_choke: false, with_interest: false, with_segmentation: false, ticks: 0, tie_breaks: true };
+    let base = Swarm { label: "", piece_len: 5, files: vec![("f", 13)], single: true, owners: vec![], may_close: vec![], by_have: vec![], with_choke: false, with_interest: false, with_segmentation: false, ticks: 0, tie_breaks: true, races: false, same_addr: vec![], tracker_first: None, tracker_later: None, gated: false, storage_only: false };
     let mut v = vec![
         // 3 single-block pieces (last one short), one seeder
         (Swarm { label: "3pc-1seeder", owners: vec![own(3, &[0, 1, 2])], may_close: vec![false], by_have: vec![false], with_choke: true, with_interest: true, ticks: 1, ..base.clone() }, 16),
@@ -443,6 +539,15 @@ pub fn scenarios(thorough: bool) -> Vec<(Swarm, usize)> {
         (Swarm { label: "3pc-have-only+partial", owners: vec![own(3, &[0, 1, 2]), own(3, &[1])], may_close: vec![false, false], by_have: vec![true, false], ..base.clone() }, 14),
         // three peers, each the only owner of one piece
         (Swarm { label: "3pc-3peers-each-one", owners: vec![own(3, &[0]), own(3, &[1]), own(3, &[2])], may_close: vec![false, false, false], by_have: vec![false, false, false], ..base.clone() }, 10),
+        // two peers race for the same pieces (end game); one of them may leave at the very moment the
+        // other one's answer arrives
+        (Swarm { label: "3pc-two-seeders-race", owners: vec![own(3, &[0, 1, 2]), own(3, &[0, 1, 2])], may_close: vec![false, true], by_have: vec![false, false], races: true, ..base.clone() }, 9),
+        // the same with the manager's broadcasts held back per connection task: a peer can leave or
+        // finish before its task has seen that the other connection completed the piece
+        (Swarm { label: "3pc-two-seeders-gated", owners: vec![own(3, &[0, 1, 2]), own(3, &[0, 1, 2])], may_close: vec![false, true], by_have: vec![false, false], gated: true, ..base.clone() }, 9),
+        // a host that restarts with a new peer id while the client is still connected to its old
+        // incarnation: the second announce lists the same address with another id
+        (Swarm { label: "3pc-restarted-peer", owners: vec![own(3, &[0, 1, 2]), own(3, &[0]), own(3, &[0, 1, 2])], may_close: vec![false, true, false], by_have: vec![false, false, false], same_addr: vec![(2, 0)], tracker_first: Some(vec![0, 1]), tracker_later: Some(vec![2, 1]), ..base.clone() }, 12),
         // multi-block pieces, multi-file layout with a boundary inside a piece and a zero-length file
         (Swarm { label: "2x16387-multifile", piece_len: 16387, files: vec![("a", 100), ("d/b", 0), ("c", 16387 * 2 - 100 - 7)], single: false, owners: vec![own(2, &[0, 1]), own(2, &[1])], may_close: vec![false, true], by_have: vec![false, false], with_segmentation: true, ..base.clone() }, 12),
     ];
@@ -596,7 +701,7 @@ fn unseamed_part(ctx: &Ctx) -> (u64, Vec<Value>) {
 }
 
 fn unseamed_extra() -> Vec<(Swarm, usize)> {
-    let base = Swarm { label: "", piece_len: 5, files: vec![("f", 13)], single: true, owners: vec![], may_close: vec![], by_have: vec![], with_choke: false, with_interest: false, with_segmentation: false, ticks: 0, tie_breaks: false };
+    let base = Swarm { label: "", piece_len: 5, files: vec![("f", 13)], single: true, owners: vec![], may_close: vec![], by_have: vec![], with_choke: false, with_interest: false, with_segmentation: false, ticks: 0, tie_breaks: false, races: false, same_addr: vec![], tracker_first: None, tracker_later: None, gated: false, storage_only: false };
     vec![(Swarm { label: "e2e-2x16387-multifile-1seeder", piece_len: 16387, files: vec![("a", 100), ("d/b", 0), ("c", 16387 * 2 - 100 - 7)], single: false, owners: vec![own(2, &[0, 1])], may_close: vec![false], by_have: vec![false], ..base }, 0)]
 }
 
@@ -616,7 +721,7 @@ pub fn run(ctx: &Ctx) -> Outcome {
     o.set("unseamed_replays", json!(unseamed));
     o.set("unseamed_replay_details", Value::Array(unseamed_rows));
     o.set("scenarios", Value::Array(per));
-    o.set("rule", json!("full-session world; honest peer i: hs handshake, bf bitfield (first message) or hv next Have, un unchoke, ao/an correct answer to the oldest/newest outstanding request, as the same answer split into two reads, hb handshake+bitfield in one read, ck one choke (then un again), in/ni interest, cl disconnect (only peers whose pieces have another owner; they are offered again by the next announce), tick = 10 s of virtual time; BFS over all orders to the stated depth; in every state: no task panicked, session alive, no connection task waits for a block its honest peer already delivered; every state that is not expanded further must reach 'all pieces owned, extractor ran, every output file byte-identical, event loop still iterating' under the fair default continuation (each honest peer does its next scripted action, otherwise time passes up to a 900 s horizon)."));
+    o.set("rule", json!("full-session world; honest peer i: hs handshake, bf bitfield (first message) or hv next Have, un unchoke, ao/an correct answer to the oldest/newest outstanding request, as the same answer split into two reads, hb handshake+bitfield in one read, ck one choke (then un again), in/ni interest, cl disconnect (only peers whose pieces have another owner; they are offered again by the next announce), xa/xc an answer of one peer and the disconnect of another arriving before the client runs (both orders), rl release of one held-back manager broadcast to a connection task (gated scenario), tick = 10 s of virtual time; BFS over all orders to the stated depth; in every state: no task panicked, session alive, Have implies a stored verified piece, an owned piece stays owned, no connection task waits for a block its honest peer already delivered; every state that is not expanded further must reach 'all pieces owned, extractor ran, every output file byte-identical, event loop still iterating' under the fair default continuation (each honest peer does its next scripted action, otherwise time passes up to a 900 s horizon)."));
     o.assume("unseamed replays: the one-seeder downloads are repeated with the connect seam inactive — the real Session connects over loopback TCP (real clock) to an honest seeder in the harness; the sequence of messages that seeder receives and the extracted files must equal those of the in-memory run (a mismatch is a machinery error)");
     o.assume("fairness: honest peers eventually unchoke, answer every valid request, and an interested peer eventually loses interest or leaves; only outgoing connections exist in this world (an incoming one needs a real socket, which cannot be mixed with the paused clock); every tie-break of the piece chooser is enumerated");
     o
@@ -625,7 +730,7 @@ pub fn run(ctx: &Ctx) -> Outcome {
 pub fn replay(_ctx: &Ctx, r: &Value) -> i32 {
     let name = r["scenario"].as_str().unwrap();
     for thorough in [false, true] {
-        for (s, _) in scenarios(thorough) {
+        for (s, _) in scenarios(thorough).into_iter().chain(storage_scenarios()) {
             if s.name() == name {
                 return explore::replay_verbose(&s, &explore::hist_from_json(&r["history"]), "C02");
             }
